@@ -502,6 +502,11 @@ def render_fn(s, loc, contract, opts, item, indent=""):
                 raise AnchorLost("%s: expression %r not found" % (item.ident, a_))
             body = body.replace(a_, b_)
             item.rewrites.append({"old": a_, "new": b_, "note": "std-equivalent (all occurrences): " + note_})
+        for rx_, rep_, note_ in opts.get("rewrites_rx", []):
+            body, n_ = re.subn(rx_, rep_, body, flags=re.S)
+            if n_ == 0:
+                raise AnchorLost("%s: pattern %r not found" % (item.ident, rx_))
+            item.rewrites.append({"old": "regex " + rx_, "new": rep_, "note": "std-equivalent (%d occurrences): %s" % (n_, note_)})
         for recv in opts.get("desugars", []):
             body = desugar_option_map(body, recv, item)
         for bind, ty in opts.get("annotates", []):
@@ -772,6 +777,7 @@ class Gen:
         befores = []
         annotates = []
         rewrites_all = []
+        rewrites_rx = []
         desugars = []
         places = {}
         anchor = None
@@ -844,6 +850,11 @@ class Gen:
                     rewrites_all.append((toks[1], toks[2], " ".join(toks[3:])))
                     i += 1
                     continue
+                if d == "rewrite_regex":
+                    # //@rewrite_regex <python regex> <replacement> <note...>: std call pattern -> specified stand-in (>= 1 match)
+                    rewrites_rx.append((toks[1], toks[2], " ".join(toks[3:])))
+                    i += 1
+                    continue
                 if d == "annotate":
                     # //@annotate <binding text> <Type>: adds `: Type` to a `let` binding (no executable token changes)
                     annotates.append((toks[1], toks[2]))
@@ -871,7 +882,7 @@ class Gen:
             i += 1
         for k in loops:
             loops[k]["text"] = "\n".join(loops[k].pop("_buf"))
-        return "\n".join(contract), {"loops": loops, "repls": repls, "sigsub": sigsub, "befores": befores, "annotates": annotates, "desugars": desugars, "rewrites_all": rewrites_all,
+        return "\n".join(contract), {"loops": loops, "repls": repls, "sigsub": sigsub, "befores": befores, "annotates": annotates, "desugars": desugars, "rewrites_all": rewrites_all, "rewrites_rx": rewrites_rx,
                                     "places": {k: "\n".join(v) for k, v in places.items()}}, i, term
 
     def vac(self, contract, ident=None):
